@@ -60,6 +60,7 @@ func noise(t *rapid.T, files model.Files) model.Files {
 
 func genC13(t *rapid.T) C13Case {
 	cfg := model.DefaultGen()
+	cfg.ArgRefPct = 25 // named types as generic arguments: definition order matters most where types depend on each other
 	root := model.GenPackage(t, &cfg)
 	c := C13Case{Mode: rapid.SampledFrom([]string{"syntax", "syntax", "layout"}).Draw(t, "mode")}
 	if rapid.IntRange(0, 4).Draw(t, "invalid") == 0 {
